@@ -144,6 +144,29 @@ def main():
                 bl = "B list " + " ".join(b.hex() or "-" for b in sweep_buffers(s, xi, mod))
                 sweep.append(("s%d" % n, line, rule, mod[1], dict(string=bytes(s).hex(), mods=mod[0], space=bl)))
     chunks += [("plain", [], c) for c in yv.chunked(sweep, 200)]
+    # base64 sweep: every byte value in each position of a 3-byte group (all 64 sextet values, '+' and '/' included, reach every character position of the
+    # encodings), default and custom alphabet, narrow and wide; buffers = the encodings of the string at the three alignments, of a near miss, and framed
+    import base64 as _b64
+    b64mods = [m for m in mods if "B" in m[1] and "a" not in m[1] and "w" not in m[1]] if quick else [m for m in mods if "B" in m[1]]
+    bsweep = []
+    for x in range(256):
+        for tpl in ((0x61, 0x62, None), (0x61, None, 0x62), (None, 0x61, 0x62)):
+            st = [x if c is None else c for c in tpl]
+            for mod in b64mods:
+                n += 1
+                line, rule = program("b%d" % n, st, mod)
+                alph = CUSTOM if any("=" + CUSTOM.hex() in t for t in mod[2]) else STD
+                tr = bytes.maketrans(STD, alph)
+                bufs = set()
+                near = list(st); near[tpl.index(None)] ^= 0x01
+                for body in (bytes(st), bytes(near)):
+                    for pre in (b"", b"q", b"qq"):
+                        for post in (b"", b"z", b"zz"):
+                            e = _b64.b64encode(pre + body + post).rstrip(b"=").translate(tr)
+                            bufs.add(e); bufs.add(b"-" + e + b"-"); bufs.add(bytes(y for c in e for y in (c, 0)))
+                bl = "B list " + " ".join(b.hex() for b in sorted(bufs) if len(b) <= 63)
+                bsweep.append(("b%d" % n, line, rule, mod[1], dict(string=bytes(st).hex(), mods=mod[0], space=bl)))
+    chunks += [("plain", [], c) for c in yv.chunked(bsweep, 100)]
     if quick:
         # the core space once more under ASan/UBSan (short strings only)
         asan_jobs = [j for j in jobs if len(j[4]["string"]) <= 4]
@@ -187,7 +210,7 @@ def main():
                 ck.sample(dict(rule=rule, buffers_scanned=r["evals"], buffers_with_expected_matches=r["nontrivial"], matches_checked=r["reported"]), cap=4)
     ck.cov["distinct_nontrivial"] = nontriv
     ck.cov["programs"] = progs
-    ck.cov["rule"] = ("programs = text strings over {00,20,41,61} (len<=%d%s) x %d legal modifier sets, plus 256 byte values x 7 templates x modifier sets; "
+    ck.cov["rule"] = ("programs = text strings over {00,20,41,61} (len<=%d%s) x %d legal modifier sets, plus 256 byte values x 7 templates x modifier sets; plus 256 byte values x 3 positions of a 3-byte group x base64 modifier sets against the encodings at the three alignments; "
                       "inputs = every buffer over the alphabet with length<=%d plus 2-byte-unit sequences; a case = (program, buffer); non-trivial = the "
                       "reference expects at least one match in that buffer (distinct by construction: each (program, buffer) pair is visited once)" % (
                           maxs, " and all len-5 over " + ("{00,41}" if quick else "{00,41,61}"), len(mods), maxb))
